@@ -247,8 +247,13 @@ impl Wal {
 		}
 
 		// Parse the record type from header byte 6
+		// A damaged first header is not this function's business: the segment is
+		// opened for appending before recovery has read (and, if needed, repaired)
+		// it, so failing here would make the store refuse to open instead.
 		let record_type_byte = header[6];
-		let record_type = RecordType::from_u8(record_type_byte)?;
+		let Ok(record_type) = RecordType::from_u8(record_type_byte) else {
+			return Ok(CompressionType::None);
+		};
 
 		if record_type == RecordType::SetCompressionType {
 			// Read the compression type byte (length is in bytes 4-5)
